@@ -12,7 +12,7 @@ from common import hx
 
 ASSUMPTIONS = c08.ASSUMPTIONS + ["asyncio.Lock wakes waiters first-in first-out (CPython's implementation)"]
 
-KINDS = ["send"] * 5 + ["ack"] * 3 + ["ack0", "ack1", "ack2", "ack3", "data", "tick", "tick", "cancel", "cancel", "ack"]
+KINDS = ["send"] * 5 + ["ack"] * 3 + ["ack0", "ack1", "ack2", "ack3", "data", "tick", "tick", "cancel", "cancel", "ack", "rflag"]
 
 
 def check_c07(ctx, evs, tokens, obs, sent_flags, steps):
